@@ -259,9 +259,17 @@ def build_system(P, lay=None, held=None):
         fr = P.get('frozen')
         if fr:
             # the rows of a frozen table are all equal (gen_general): the object gets the constant matrix and inherits LTI's property
-            A, B, C, D = (M[:, 0] if n in fr else M for n, M in (('A', A), ('B', B), ('C', C), ('D', D)))
+            def const(n, M):
+                # the constant matrix is a tensor of its own (a leaf: a module holding a non-leaf view of a tensor that requires grad
+                # cannot be deep-copied - a limitation of torch, not the subject of the property)
+                k = M[:, 0].detach().clone()
+                set_grad(k, n in gnames)
+                if hold is not None and n in hold:
+                    hold[n] = (k, k)
+                return k
+            A, B, C, D = (const(n, M) if n in fr else M for n, M in (('A', A), ('B', B), ('C', C), ('D', D)))
             if c1 is not None and 'c1' in fr:
-                c1 = c1[:, 0]
+                c1 = const('c1', c1)
             return c['partial_ltv'](fr)(A, B, C, D, c1, N), (nb, ns, nc)
         return c['TabLTV'](A, B, C, D, c1, N), (nb, ns, nc)
     tw = P.get('twin')
